@@ -335,6 +335,7 @@ def run_compile(ctx, compiler, prec, uri, attach):
     else:  # stream style: shallow copy with uri
         arg = {**doc, "uri": uri}
     before = copy.deepcopy(arg)
+    ctx.watch = [arg, before, None]  # the id generator is the one seam inside compile(): the argument is compared at every draw
     try:
         res = compiler.compile(arg)
         kind, out = "pickles", res
@@ -343,9 +344,11 @@ def run_compile(ctx, compiler, prec, uri, attach):
     except Exception as e:  # noqa: BLE001
         kind, out = "foreign", [type(e).__name__, str(e)]
     draws = ctx.draws[d0:]
+    during = ctx.watch[2]
+    ctx.watch = None
     snap = copy.deepcopy(out)
     norm = norm_pickles(out, prec["draws"], draws) if kind == "pickles" else snap
-    return {"op": "compile", "kind": kind, "raw": out, "snap": snap, "norm": norm, "draws": draws,
+    return {"op": "compile", "kind": kind, "raw": out, "snap": snap, "norm": norm, "draws": draws, "modified_during": during is not None,
             "arg_intact": arg == before, "arg_diff": None if arg == before else first_diff(before, arg),
             "reads": 0, "toks": 0, "dirty": []}
 
@@ -474,6 +477,8 @@ class Run:
                         self.violation("C15-alone", ts.ti, oi, d, ref["norm"], rec["norm"])
             if "pure" in self.oracles and not rec.get("arg_intact", True):
                 self.violation("C15-pure", ts.ti, oi, rec.get("arg_diff") or "$", None, None)
+            elif "pure" in self.oracles and rec.get("modified_during"):
+                self.violation("C15-pure", ts.ti, oi, "$during", "document unchanged at every id draw inside compile()", "document differed from its snapshot while compile() was running (restored afterwards)")
         if "offset" in self.oracles:
             self.check_offset(ts, oi, op, rec)
         if "stable" in self.oracles:
